@@ -13,6 +13,13 @@ pub fn cfg_text(d_hold: u32, d_idle: u32, v0: &str, v1: &str) -> String {
     )
 }
 
+/// as `cfg_text`, but key h is a second hold-for-duration of the SAME virtual key v1 with its own time
+pub fn cfg_text2(d1: u32, d2: u32) -> String {
+    format!(
+        "(defvirtualkeys v0 q v1 w v2 y)\n(defsrc a b c d e f g h)\n(deflayer l0 (on-press-fakekey v0 press) (on-press-fakekey v0 release) (on-press-fakekey v0 tap) (on-press-fakekey v0 toggle) (on-release-fakekey v0 toggle) (hold-for-duration {d1} v1) (on-idle-fakekey v2 tap 50) (hold-for-duration {d2} v1))\n(deflayer l1 1 1 1 1 1 1 1 2)\n"
+    )
+}
+
 fn tap(h: &mut Vec<KEv>, k: u16, hold: u32, after: u32) {
     h.push(KEv::L(HEv::Press(0, k)));
     h.push(KEv::L(HEv::Tick(hold)));
@@ -63,6 +70,24 @@ pub fn gen(tier: &str, seed: u64) -> Vec<String> {
                     }
                 }
                 h.push(KEv::L(HEv::Tick(d + 20)));
+                lines.push(mk_kline("KAN", false, &cfg, &h));
+            }
+        }
+    }
+    // (2b) two keys holding the same virtual key for different times: the most recent activation decides
+    for (d1, d2) in [(50u32, 5u32), (5, 50), (20, 10), (51, 49), (10, 10), (200, 3)] {
+        for gap in [0u32, 1, 3, d2.saturating_sub(1), d2 + 1, d1.saturating_sub(2), d1 + 3] {
+            for order in 0..3u32 {
+                let cfg = cfg_text2(d1, d2);
+                let (k1, k2) = if order == 1 { (keys[7], keys[5]) } else { (keys[5], keys[7]) };
+                let mut h = vec![];
+                tap(&mut h, k1, 1, gap);
+                tap(&mut h, k2, 1, 0);
+                if order == 2 {
+                    h.push(KEv::L(HEv::Tick(gap)));
+                    tap(&mut h, k1, 1, 0);
+                }
+                h.push(KEv::L(HEv::Tick(d1 + d2 + 30)));
                 lines.push(mk_kline("KAN", false, &cfg, &h));
             }
         }
